@@ -197,12 +197,12 @@ def d5_per_step_moves(ctx, repo):
         waits = [n for s in f.node.body if s is not lp and s.lineno > lp.lineno for n in A.walk_local(s) if A.is_msg_yield(n, "wait")]
         ok = grp is not None and len(waits) >= 1 and A.kw(waits[0].value, "group") is not None and A.norm(A.kw(waits[0].value, "group")) == A.norm(grp)
         ctx.ob(rule, cname(f, None, "wait on the group of the sets before the reading"), ok, "" if ok else "the reading is no longer taken after the motors arrived", where=where(f, f.node))
-    g = repo.func(PSM, "one_1d_step.move")
     o = repo.func(PSM, "one_1d_step")
+    g = q.flat_view(o)  # the move helper may be a nested generator or written in line
     oparams = [a.arg for a in o.node.args.args]
     sets = [n for n in A.walk_local(g.node) if A.is_msg_yield(n, "set")]
     ok = len(sets) == 1 and len(oparams) >= 3 and [A.norm(a) for a in sets[0].value.args[1:3]] == oparams[1:3] and \
-        not any(isinstance(s, (ast.If, ast.For, ast.While)) for s in A.walk_stmts(g.node.body))
+        not any(isinstance(s, (ast.If, ast.For, ast.While, ast.Try)) and any(n is sets[0] for n in ast.walk(s)) for s in A.walk_stmts(g.node.body))
     ctx.ob(rule, cname(g, None, "unconditional Msg('set', motor, step)"), ok, "" if ok else "one_1d_step no longer commands the motor to the step unconditionally", nontrivial=True, where=where(g, g.node))
     waits = [n for n in A.walk_local(g.node) if A.is_msg_yield(n, "wait")]
     ok = bool(sets) and bool(waits) and A.kw(sets[0].value, "group") is not None and A.kw(waits[0].value, "group") is not None and \
